@@ -437,6 +437,13 @@ def run_op(ctx, op):
 
 
 # ------------------------------------------------------------------ candidate instances for the minor stage
+CAND_WORLDS = (worlds.WorldSpec(("+", "-"), True, False, 0, "rich"), worlds.WorldSpec(("-", "+"), False, True, 2, "richd"))
+
+
+def hash_small(x):
+    return int(hashlib.md5(repr(x).encode()).hexdigest()[:6], 16)
+
+
 def cand_instances():
     """(table, [(structure, {major: count}, novel, major score), ...]) over the toy gene."""
     T = lambda **kw: {int(k[1:]): v for k, v in kw.items()}
@@ -512,6 +519,21 @@ class C14(Check):
                 continue
             for planted in minor_plantings(gene, struct):
                 yield ("cands2", planted, ())
+        # the same on generated worlds (both strands, rich table with fusions, indels and a deletion): the candidates are
+        # what the major stage proposes for the planted structure, one copy more, one copy fewer and two other structures
+        for wi, wk in enumerate(CAND_WORLDS):
+            gene = worlds.gene_of(wk, "hg19")
+            n = 0
+            for struct in structures(gene, 2):
+                if len(struct) != 2:
+                    continue
+                for planted in minor_plantings(gene, struct):
+                    n += 1
+                    if self.tier == "quick" and n % 8 != (self.seed + 5 * wi) % 8:
+                        continue
+                    if self.tier == "thorough" and n % 2 != (self.seed + wi) % 2:
+                        continue
+                    yield ("cands3", wi, planted, ())
         for i, (table, cands) in enumerate(cand_instances()):
             n = len(cands)
             for r in range(1, min(n, 3 if self.tier == "quick" else 4) + 1):
@@ -539,6 +561,23 @@ class C14(Check):
                     if self.tier == "quick" and mi_ % 2 != self.seed % 2:
                         continue
                     yield (f"set{m}", ("cands2", planted, (("set", m[0], m[1], 6),)))
+            return
+        if st[0] == "cands3":
+            _, wi, planted, devs = st
+            if devs or self.tier == "quick":
+                return
+            from .c04 import C04
+            gene = worlds.gene_of(CAND_WORLDS[wi], "hg19")
+            base = C04._base(None, gene, planted)
+            cells = [(pos, op) for pos in sorted(base) for op in sorted(base[pos])]
+            k = hash_small(planted)
+            for ci, (pos, op) in enumerate(cells):
+                if (ci + k) % 8 == self.seed % 8:
+                    yield (f"{pos}{op}x0.5", ("cands3", wi, planted, (("scale", pos, op, 0.5),)))
+            muts = [m for m in sorted(gene.mutations) if m[1] not in base.get(m[0], {})]
+            for mi_, m in enumerate(muts):
+                if (mi_ + k) % 8 == self.seed % 8:
+                    yield (f"set{m}", ("cands3", wi, planted, (("set", m[0], m[1], 6),)))
             return
         if st[0] != "hist":
             return
@@ -573,7 +612,7 @@ class C14(Check):
             return self._eval_seed(st)
         if st[0] == "seedtable":
             return self._eval_seedtable(st)
-        if st[0] == "cands2":
+        if st[0] in ("cands2", "cands3"):
             return self._eval_cands2(st)
         if st[0] == "chain":
             return self._eval_chain(st)
@@ -613,13 +652,23 @@ print("RESULT", repr(last))
         from aldy.major import estimate_major
         from .c04 import C04
 
-        _, planted, devs = st
-        gene = worlds.gene_of(("toy",), "hg19")
+        if st[0] == "cands3":
+            _, wi, planted, devs = st
+            gene = worlds.gene_of(CAND_WORLDS[wi], "hg19")
+            label = f"world {CAND_WORLDS[wi]} planted {planted} devs {devs}"
+        else:
+            _, planted, devs = st
+            gene = worlds.gene_of(("toy",), "hg19")
+            label = f"toy planted {planted} devs {devs}"
         p = Profile("verif", gap=0.3)
         table = tables.apply_deviations(C04._base(None, gene, planted), devs)
         cov0 = tables.to_coverage(gene, p, table)
         base_struct = tuple(gene.alleles[M].cn_config for M, _ in planted)
-        menu = [base_struct, base_struct + ("1",), base_struct[:1], ("1", "1"), ("1", "4")]
+        if st[0] == "cands3":
+            fus = sorted(c for c in gene.cn_configs if c != "1" and gene.cn_configs[c].alleles and c != gene.deletion_allele())
+            menu = [base_struct, base_struct + ("1",), base_struct[:1], ("1", "1")] + [("1", f) for f in fus[:2]]
+        else:
+            menu = [base_struct, base_struct + ("1",), base_struct[:1], ("1", "1"), ("1", "4")]
         cands = []
         seen = set()
         for stc in menu:
@@ -634,15 +683,19 @@ print("RESULT", repr(last))
             if ms:
                 m = ms[0]
                 cands.append((tuple(stc), {a.major: c for a, c in m.solution.items()}, tuple((x.pos, x.op) for x in m.added), round(m.score, 3)))
+        if st[0] == "cands3" and len(cands) > 4 and hash_small(planted) % 2:
+            cands = cands[:2] + cands[3:5]      # alternate between the one-copy candidate and the second fusion
         cands = cands[:4]
         v = []
         summary = []
         for r in (2, 3):
             for order in itertools.permutations(range(len(cands)), r):
-                vv, same = self._judge_candidates(gene, Profile("verif"), table, cands, order, f"toy planted {planted} devs {devs}")
+                if st[0] == "cands3" and r == 3 and tuple(order) != tuple(sorted(order)) and tuple(order) != tuple(sorted(order, reverse=True)):
+                    continue      # generated worlds: every ordered pair, every triple in ascending and descending order
+                vv, same = self._judge_candidates(gene, Profile("verif"), table, cands, order, label)
                 v += vv
                 summary.append(same)
-        return Outcome(v[:6], key=("cands2", len(cands), sum(all(x) for x in summary)), nontrivial=len(cands) >= 2,
+        return Outcome(v[:6], key=(st[0], len(cands), sum(all(x) for x in summary)), nontrivial=len(cands) >= 2,
                        counters={"candidate_orders": len(summary)}, note={"planted": planted, "devs": devs, "candidates": [c[:2] for c in cands]})
 
     def _eval_hist(self, st):
